@@ -402,7 +402,7 @@ fn session(lines: &[String], emit: &mut dyn FnMut(String)) {
     let mut started = false; let mut exited = false; let mut broken: Option<String> = None;
     let startup_objs: Vec<usize> = std::iter::once(EXE).chain(f.ldd.iter().copied()).collect();
     let mut last_maps: Vec<(usize, u64, u64)> = vec![];
-    let mut stale_at_exit = false;
+    let mut stale_at_exit = false; let mut n_user_running = 0usize; let mut exit_checked = false;
     let ofail = |emit: &mut dyn FnMut(String), key: &str, what: String| {
         emit(format!("!oracle {}", json!({"key": key, "what": what, "replay": {"prog": prog, "script": script}})));
     };
@@ -588,10 +588,14 @@ fn session(lines: &[String], emit: &mut dyn FnMut(String)) {
         let b_s = if exited && stale_at_exit { "unstable".to_string() } else { enc_list(&bps, |s| s.clone()) };
         let libs = libs_of(&f, &live.dbg);
         let l_s = enc_list(&libs, |(id, r)| match r { Some((a, b)) => format!("{id}:{a:x}:{b:x}"), None => format!("{id}:-") });
-        if exited && stale_at_exit {
-            // the breakpoints that were in an unloaded library must survive the exit like the others (they do not)
-            let n_user = live.dbg.breakpoints_snapshot().len();
-            let _ = n_user;
+        if started && !exited { n_user_running = bps.len(); }
+        if exited && !exit_checked {
+            exit_checked = true;
+            // user breakpoints are kept for the next run when the program ends — those of an unloaded library too
+            if bps.len() < n_user_running {
+                let key = if stale_at_exit { "stale-library-breakpoint-dropped-at-exit" } else { "user-breakpoint-lost-at-exit" };
+                ofail(emit, key, format!("{n_user_running} user breakpoints before the program ended, {} after: {:?}", bps.len(), bps));
+            }
         }
         emit(format!("R {rewritten}"));
         emit(format!("A {outcome} i={} b={b_s} l={l_s}", enc_list(&cc, |a| format!("{a:x}"))));
